@@ -24,6 +24,8 @@ func propC17(c *Ctx) {
 	c.rulePathParamsComplete()
 	c.ruleTemplateExpressions("C17-TEMPLATE-EXPRESSIONS")
 	c.rulePanicValue("C17-PANIC-VALUE")
+	c.ruleIDDerivation() // the paths object is keyed by the path an interaction stores: it must be the path of its id
+	c.ruleWalkResultDiscarded("C17-WALK-RESULT-DISCARDED")
 	c.ruleTypedNilError("C17-TYPED-NIL-ERROR")
 	c.ruleComponentsIffTypes()
 	c.ruleResponseKeys()
